@@ -11,8 +11,8 @@ RangeOf(q) == {q[i] : i \in 1..Len(q)}
 Sym(R) == R \cup {<<p[2], p[1]>> : p \in R}
 Pairs(q) == {<<q[i][1], q[i][2]>> : i \in 1..Len(q)}
 Closure(o) == {o} \cup {p[2] : p \in {x \in share : x[1] = o}}
-Ok(e) == CASE e.kind = "pure"  -> e.out # "ok" \/ e.changed = <<>>                        \* arguments (and everything else) keep value and structure
-           [] e.kind = "fresh" -> e.out # "ok" \/ (e.changed = <<>> /\ e.shares = <<>>)         \* independent copy: no shared storage with anything alive
+Ok(e) == CASE e.kind = "pure"  -> e.changed = <<>>                                         \* arguments (and everything else) keep value and structure, also when the call is rejected
+           [] e.kind = "fresh" -> e.changed = <<>> /\ e.shares = <<>>                           \* independent copy: no shared storage with anything alive
            [] e.kind = "inplace" -> RangeOf(e.changed) \subseteq Closure(e.recv)
            [] e.kind = "raises" -> e.out = "ok"                                                 \* a public copy/clone that must work
 Why(e) == CASE e.kind = "pure" -> <<"operation changed an existing object", e.fn, "changed", e.changed>>
